@@ -271,7 +271,10 @@ def audits(ctx, prog):
         cls = [g for g in prog.funcs if re.search(r'did_url::<impl at [^>]*>::set_%s::\{closure#1\}$' % part, g.name)]
         flt = [g for g in prog.funcs if re.search(r'did_url::<impl at [^>]*>::set_%s::\{closure#0\}$' % part, g.name)]
         if len(cls) != 1 or len(flt) != 1:
-            raise Refuse('closures of set_%s not found' % part)
+            # the validator is no longer the closure this requirement reads: that requirement alone is undecided, the
+            # store-only-validated-value requirement above still stands on its own
+            ctx.add(Ob('RelativeDIDUrl::set_%s/validator-closure' % part, 'M', INCONCLUSIVE, detail='validator closure of set_%s not found' % part))
+            continue
         paths, ex = A.paths(cls[0])
 
         def r_val(p, part=part, ch=ch, lead=lead):
